@@ -203,3 +203,30 @@ def memo_rule(ctx, rep: Report, clause: str, modules):
         rep.ob('MEMO', f'no memoised computation in {", ".join(sorted(m.split(".")[-1] for m in modules))}', '', True,
                'nothing cached across evaluations: every result is recomputed from its inputs', False, clause)
     return len(res)
+
+
+def repeat_alias_rule(ctx, rep: Report, clause: str, modules):
+    """no comprehension stores one mutable object under several keys/positions (the entries would alias each
+    other: an in-place edit of one residue's modification list edits all of them)"""
+    an, program = ctx.analyzer, ctx.program
+    n = 0
+    seen = set()
+    for (fq, spec), evs in an.events.items():
+        f = program.find_func(fq)
+        if f is None or f.module.name not in modules:
+            continue
+        for ev in evs:
+            if ev[0] == 'repeat_alias':
+                _k, text, node, tys = ev
+                key = (fq, text)
+                if key in seen:
+                    continue
+                seen.add(key)
+                n += 1
+                check(rep, 'ALIAS-repeat', fq, f'`{text[:80]}` builds independent entries', False, '',
+                      f'`{text[:80]}` stores the same {tys} object at every position: the entries alias each other, so a '
+                      f'later in-place edit of one (e.g. popping a numeric shift for one residue) edits all of them',
+                      f.loc(node), clause)
+    if n == 0:
+        rep.ob('ALIAS-repeat', f'no comprehension in {", ".join(sorted(m.split(".")[-1] for m in modules))} repeats one '
+               f'mutable object', '', True, 'every position gets its own object', False, clause)
